@@ -1884,9 +1884,13 @@ func (r stack) defaultAssertionHandler(x any) (str string) {
 		if ic == not && len(Xs.getSymbol()) == 0 {
 			// Handle NOTs a little differently
 			// when nested and when not using
-			// symbol operators ...
-			ik = foldValue(Xs.positive(cfold), ik)
-			str = ik + ` ` + Xs.String()
+			// symbol operators ... the kind
+			// (ik) is already case-folded.
+			if inner := Xs.String(); len(inner) > 0 {
+				str = ik + ` ` + inner
+			} else {
+				str = inner
+			}
 		} else {
 			str = Xs.String()
 		}
